@@ -1051,6 +1051,12 @@ fn union_single_and_range(
             }
             let mut indices = indicies.iter().collect::<Vec<_>>();
             indices.sort();
+            if indices.is_empty() {
+                return Err(GrammarError::new(
+                    &format!("Empty permitted alphabet: {s1:?} and {min:?}..{max:?}"),
+                    GrammarErrorType::UnpackingError,
+                ));
+            }
             let mut last = indices[0];
             let mut contiguous = true;
             for v in indices[1..].iter() {
